@@ -249,3 +249,12 @@ package harfbuzz
 //@   requires [context] c != nil && c.buffer != nil
 //@   assert_at call applyLookup#1 : [matched-range-flagged] c.buffer.scratchFlags&bsfHasGlyphFlags != 0
 //@   modifies unspecified
+//
+// Property C01, mechanism "budgets ... checked between lookups and in recursion": recurse refuses to go deeper when the
+// nesting budget is used up (without consuming an operation), and when the operation budget is used up.
+//@ func otApplyContext.recurse C01
+//@   mode int
+//@   requires [context] c != nil && c.buffer != nil
+//@   ensures [nesting-budget-enforced] implies(old(c.nestingLevelLeft) == 0 || old(c.recurseFunc) == nil, !result && c.buffer.maxOps == old(c.buffer.maxOps) && c.nestingLevelLeft == old(c.nestingLevelLeft))
+//@   ensures [operation-budget-enforced] implies(old(c.nestingLevelLeft) != 0 && old(c.recurseFunc) != nil && old(c.buffer.maxOps) <= 0, !result && c.nestingLevelLeft == old(c.nestingLevelLeft))
+//@   modifies unspecified
